@@ -237,6 +237,16 @@ func (vm *VM) BeginScope() {
 	}
 }
 
+// ScopeDepth - nesting depth of the current module's scope (0: imports, 1: the declarations
+// of the module body, deeper: blocks)
+func (vm *VM) ScopeDepth() int {
+	scope := vm.getCurrentScope()
+	if scope == nil {
+		return 0
+	}
+	return scope.Depth()
+}
+
 // BeginJoinedScope - see Scope.BeginJoinedScope
 func (vm *VM) BeginJoinedScope() {
 	scope := vm.getCurrentScope()
